@@ -1078,3 +1078,11 @@ add("C10", "dispatch-swallows-hook-error-and-marks-unfixed", LT,
 add("C18", "codemod-hook-swallows-around-report", "core_codemods/use_set_literal.py",
     [("                            self.report_change(original_node)\n", "                            try:\n                                self.report_change(original_node)\n                            except Exception:\n                                return updated_node\n")],
     "fire", "R-NO-SWALLOW", "leave_Call")
+add("C17", "benign-core-origin-named-constant", REG,
+    [("                if bool(sast_only) != bool(codemod.origin == \"pixee\"):", "                if bool(sast_only) != bool(codemod.origin == CORE_ORIGIN):"),
+     ("@dataclass\nclass CodemodCollection:", "CORE_ORIGIN = \"pixee\"\n\n\n@dataclass\nclass CodemodCollection:")],
+    "silent")
+add("C11", "findings-lookup-falls-back-when-path-missing", "codemodder/result.py",
+    [("        return self.get(rule_id, {}).get(file.relative_to(context.directory), [])\n\n    def files_for_rule(",
+      "        rel = file.relative_to(context.directory)\n        by_file = self.get(rule_id, {})\n        if rel not in by_file and not (context.directory / rel.name).exists():\n            return by_file.get(Path(rel.name), [])\n        return by_file.get(rel, [])\n\n    def files_for_rule(")],
+    "fire", "R-LOOKUP-NO-FS", "results_for_rule_and_file")
